@@ -214,6 +214,10 @@ class Built:
 
 # ------------------------------------------------------------------ runners
 
+EXTERNAL_REMOVE_RECORDING = False
+ACTIVE_REC = None
+
+
 class Deadlock(Exception):
     pass
 
@@ -343,6 +347,12 @@ class SpyRunner(Runner):
 
     def remove_results(self, tasks):
         tasks = list(tasks)
+        if EXTERNAL_REMOVE_RECORDING:
+            # the instrumented inner method records the removal at the moment it has really happened
+            global ACTIVE_REC
+            ACTIVE_REC = self.rec
+            self.inner.remove_results(tasks)
+            return
         self.rec.on_remove(tasks)
         self.inner.remove_results(tasks)
         self.rec.on_map(self.inner.results_map)
@@ -402,10 +412,13 @@ class Recorder:
 
 # ------------------------------------------------------------------ running one case against the real code
 
-def run_case(case, workdir=None, backend_factory=None):
+def run_case(case, workdir=None, backend_factory=None, catch_ki=False, around_run=None):
     """Build the graph, run the real Lab.run_tasks under the chosen runner, return the observation dict."""
     built = Built(case)
     rec = Recorder(built.tid_of)
+    global ACTIVE_REC
+    if EXTERNAL_REMOVE_RECORDING:
+        ACTIVE_REC = rec
     own = workdir is None
     workdir = workdir or tempfile.mkdtemp(dir=subdir('sched'))
     storage = None
@@ -427,8 +440,10 @@ def run_case(case, workdir=None, backend_factory=None):
         obj._lt.cache.save(lab._storage, obj, TaskResult(value=pure[t], meta=ResultMeta(
             start=datetime(2020, 1, 1, 0, 0, t), duration=timedelta(seconds=t + 1))))
     obs = dict(outcome=None, returned=None, exc=None)
+    import contextlib
     try:
-        res = lab.run_tasks(built.req, bust_cache=case['bust'], disable_progress=True, disable_top=True)
+        with (around_run if around_run is not None else contextlib.nullcontext()):
+            res = lab.run_tasks(built.req, bust_cache=case['bust'], disable_progress=True, disable_top=True)
     except Deadlock:
         obs['outcome'] = 'stuck'
     except LabError as e:
@@ -437,6 +452,11 @@ def run_case(case, workdir=None, backend_factory=None):
         obs['cause'] = type(e.__cause__).__name__ if e.__cause__ is not None else None
     except KeyError as e:
         obs['outcome'] = 'keyerror'
+        obs['exc'] = repr(e)[:200]
+    except KeyboardInterrupt as e:
+        if not catch_ki:
+            raise
+        obs['outcome'] = 'interrupt'
         obs['exc'] = repr(e)[:200]
     except BaseException as e:   # noqa
         obs['outcome'] = 'other'
